@@ -190,6 +190,70 @@ def check_tree(acc, tree, options=None):
         acc.violation(f"{i.kind}:{name}", f"tree {name} x={i.inputs and i.inputs.get('x')}: {i.kind}: {what}", dict(case, inputs=i.inputs))
 
 
+# ---------------------------------------------------------------------------
+# what a symbolic address denotes is rolled back with the frame that created the account
+# ---------------------------------------------------------------------------
+
+NEW_ADDR = 0xAAAA0002  # the address halmos gives the first contract created in a transaction
+B_ADDR = 0xB1
+ALIAS_GRID = [{"x": v} for v in (0, NEW_ADDR, B_ADDR, calltree.ROOT_ADDR, 0xE0AE, (1 << 160) + NEW_ADDR)]
+
+
+def alias_cases():
+    for outcome in ("revert", "stop", "invalid"):
+        for inner in ("CALL", "STATICCALL", "EXTCODESIZE", "none"):
+            for second in ("CALL", "STATICCALL", "EXTCODESIZE"):
+                yield {"outcome": outcome, "inner": inner, "second": second}
+
+
+def alias_spec(case):
+    """A(x): CALL B(x); then observe x (CALL / STATICCALL / EXTCODESIZE); return (flag of B, observation, RETURNDATASIZE, EXTCODESIZE(x)).
+    B(x): n = CREATE(one-byte runtime); touch x (so that `x == n` is decided inside B's frame); then revert / stop / INVALID."""
+    from mc import asm
+
+    X = ["PUSH0", "CALLDATALOAD"]
+
+    def touch(kind):
+        if kind == "none":
+            return []
+        if kind == "EXTCODESIZE":
+            return X + ["EXTCODESIZE"]
+        return ["PUSH0", "PUSH0", "PUSH0", "PUSH0"] + (["PUSH0"] if kind == "CALL" else []) + X + [("push", 0xFFFF), kind]
+
+    b = [("pushn", 4, 0x60015FF3), "PUSH0", "MSTORE", ("push", 4), ("push", 28), "PUSH0", "CREATE", "POP"]
+    t = touch(case["inner"])
+    b += t + (["POP"] if t else [])
+    b += {"revert": ["PUSH0", "PUSH0", "REVERT"], "stop": ["STOP"], "invalid": ["INVALID"]}[case["outcome"]]
+    a = X + ["PUSH0", "MSTORE", "PUSH0", "PUSH0", ("push", 32), "PUSH0", "PUSH0", ("push", B_ADDR), ("push", 0xFFFFFF), "CALL", ("push", 0x100), "MSTORE"]
+    a += touch(case["second"]) + [("push", 0x120), "MSTORE", "RETURNDATASIZE", ("push", 0x140), "MSTORE"] + X + ["EXTCODESIZE", ("push", 0x160), "MSTORE"]
+    a += [("push", 0x80), ("push", 0x100), "RETURN"]
+    return {
+        "accounts": {hex(calltree.ROOT_ADDR): {"code": asm.assemble(a).hex(), "balance": ROOT_BAL}, hex(B_ADDR): {"code": asm.assemble(b).hex(), "balance": 0}},
+        "target": calltree.ROOT_ADDR, "caller": 0xE0A, "origin": 0xE0B, "value": 0, "calldata": [["sym", "x", 32]], "options": {},
+    }
+
+
+def check_alias(acc, case):
+    spec = alias_spec(case)
+    name = f"alias:B={case['inner']}/{case['outcome']}:then={case['second']}"
+    acc.count("trees")
+    acc.count("frames", 3)
+    try:
+        results = hdriver.run_halmos(spec)
+    except Exception as e:
+        acc.violation(f"crash:{type(e).__name__}:{name}", f"halmos raised {type(e).__name__}: {e} on {name} (A calls B(x); B creates an account, touches x, ends; A then observes x)", {"alias": case})
+        return
+    issues, stats = progcheck.check_program(spec, ALIAS_GRID, want_coverage=True, results=results)
+    acc.count("paths", stats["paths"])
+    acc.count("pairs", stats["pairs"])
+    for o in stats["outcomes"]:
+        acc.outcome(o)
+    if stats["stuck"]:
+        acc.violation(f"stuck:{name}", f"{name}: {stats['stuck']} path(s) stuck", {"alias": case})
+    for i in issues[:1]:
+        acc.violation(f"{i.kind}:{name}", f"{name} x={i.inputs and hex(i.inputs.get('x', 0))}: {i.kind}: {i.detail[:300]}", {"alias": case, "inputs": i.inputs})
+
+
 def count_nodes(t):
     return 1 + sum(count_nodes(c) for c in t["children"])
 
@@ -218,6 +282,9 @@ def run_shard(shard):
         check_tree(acc, tree)
         if k < shard["n"] * 2:
             acc.sample({"tree": tree_str(tree), "inputs": [g["x"] for g in GRID]})
+    for k, case in enumerate(alias_cases()):
+        if k % shard["n"] == shard["i"]:
+            check_alias(acc, case)
     return acc.result()
 
 
@@ -241,6 +308,9 @@ def replay(case):
     hdriver.install_logging()
     hdriver.install_uid()
     acc = Acc()
-    check_tree(acc, case["tree"], case.get("options"))
+    if "alias" in case:
+        check_alias(acc, case["alias"])
+    else:
+        check_tree(acc, case["tree"], case.get("options"))
     v = acc.result()["violations"]
     return {"violated": bool(v), "obs": [x["what"] for x in v][:3], "key": v[0]["key"] if v else ""}
